@@ -6,6 +6,7 @@ CONSTANTS
     SrvKinds = {"chclose", "connclose"}
     Faults = {"eof"}
     ClientClose = FALSE
+    Compliant = FALSE
     Bug = {}
 SPECIFICATION FairSpec
 INVARIANTS Released NoStuckCaller
